@@ -6,8 +6,8 @@ sys.path.insert(0, os.path.join(core.VERIF, "translator"))
 import gen_radiotap  # noqa: E402
 
 AREA = "C11"
-MODULES = ["TinsModel.Props.C11"]
-AUDIT = "Audit/C11.lean"
+MODULES = ["TinsModel.Props.C11", "TinsModel.Props.Limits.C11"]   # + the constants / limits tied to the source (translator/gen_limits.py)
+AUDIT = ["Audit/C11.lean", "Audit/LimitsC11.lean"]
 LEVEL = "proof"
 MANIFEST = dict(
     text="Lean 4 theorems over a code-shaped executable model of RadioTapParser, RadioTapWriter::write_option "
@@ -190,6 +190,8 @@ def sig_of(kind, detail, case):
 
 def run(chk):
     gen_radiotap.main([])                     # field table regenerated from the source on every run
+    from translator import gen_limits
+    gen_limits.main([])          # Gen/Limits.lean: constants and limits read from the current source
     problems = chk.prove(MODULES, AUDIT, want_leanchecker=(chk.tier == "thorough"))
     exe, err = core.build_harness("c11_radiotap")
     if exe is None:
